@@ -225,6 +225,17 @@ func (stream *DataStreamReader) nextValid() (rec *Record, offset uint32, sizeBro
 	return nil, offset2, sizeBroken, nil
 }
 
+// nextValidOrErr handles a short read of key or body. It can come from a damaged size
+// field as well as from a torn tail, so look for the next valid record first and report
+// the read error only if there is none.
+func (stream *DataStreamReader) nextValidOrErr(readErr error) (rec *Record, offset uint32, sizeBroken uint32, err error) {
+	rec, offset, sizeBroken, err = stream.nextValid()
+	if rec == nil && err == nil {
+		err = readErr
+	}
+	return
+}
+
 func (stream *DataStreamReader) Next() (res *Record, offset uint32, sizeBroken uint32, err error) {
 	wrec := newWriteRecord()
 	if _, err = io.ReadFull(stream.rbuf, wrec.header[:]); err != nil {
@@ -249,12 +260,12 @@ func (stream *DataStreamReader) Next() (res *Record, offset uint32, sizeBroken u
 	wrec.rec.Key = make([]byte, wrec.ksz)
 	if _, err = io.ReadFull(stream.rbuf, wrec.rec.Key); err != nil {
 		logger.Errorf(err.Error())
-		return
+		return stream.nextValidOrErr(err)
 	}
 	wrec.rec.Payload.Body = stream.maxBodyBuf[:wrec.vsz]
 	if _, err = io.ReadFull(stream.rbuf, wrec.rec.Payload.Body); err != nil {
 		logger.Errorf(err.Error())
-		return
+		return stream.nextValidOrErr(err)
 	}
 	recsizereal, recsize := wrec.rec.Sizes()
 	tail := recsizereal & 0xff
